@@ -160,6 +160,72 @@ func main() {
 	for _, n := range varNames {
 		names += fmt.Sprintf("%q, ", n)
 	}
+	// other exported functions of package uu that hand out IDs (func() ID, func(int) []ID,
+	// func(int) ID, func() []ID): an edited tree that grows a batch API is exercised through it too
+	sources, srcNames := "", ""
+	uuAlias := ""
+	for i, p := range pkgs {
+		if p.dir != "uu" {
+			continue
+		}
+		_ = i
+		for _, fc := range p.files {
+			for _, d := range fc.f.Decls {
+				fd, ok := d.(*ast.FuncDecl)
+				if !ok || fd.Recv != nil || !fd.Name.IsExported() || fd.Name.Name == "RandomID" || fd.Type.TypeParams != nil {
+					continue
+				}
+				res := fd.Type.Results
+				if res == nil || len(res.List) != 1 || len(res.List[0].Names) > 1 {
+					continue
+				}
+				many := false
+				switch t := res.List[0].Type.(type) {
+				case *ast.Ident:
+					if t.Name != "ID" {
+						continue
+					}
+				case *ast.ArrayType:
+					if id, ok := t.Elt.(*ast.Ident); !ok || id.Name != "ID" || t.Len != nil {
+						continue
+					}
+					many = true
+				default:
+					continue
+				}
+				np := 0
+				intParam := false
+				if fd.Type.Params != nil {
+					for _, f := range fd.Type.Params.List {
+						k := len(f.Names)
+						if k == 0 {
+							k = 1
+						}
+						np += k
+						if id, ok := f.Type.(*ast.Ident); ok && id.Name == "int" {
+							intParam = true
+						}
+					}
+				}
+				if np > 1 || (np == 1 && !intParam) {
+					continue
+				}
+				arg := ""
+				if np == 1 {
+					arg = "n"
+				}
+				if many {
+					sources += fmt.Sprintf("\tfunc(n int) []uu.ID { return uu.%s(%s) },\n", fd.Name.Name, arg)
+				} else {
+					sources += fmt.Sprintf("\tfunc(n int) []uu.ID { return []uu.ID{uu.%s(%s)} },\n", fd.Name.Name, arg)
+				}
+				srcNames += fmt.Sprintf("%q, ", "uu."+fd.Name.Name)
+				uuAlias = "\tuu \"go.lstv.dev/util/uu\"\n"
+			}
+		}
+	}
+	_ = uuAlias
+	imports += "\tuu \"go.lstv.dev/util/uu\"\n"
 	if resetOnly {
 		src := fmt.Sprintf("// Code generated by vsim rewrite. DO NOT EDIT.\n\npackage %s\n\nimport (\n%s)\n\n// resetPackages re-initialises the package-level state of the packages under test.\nfunc resetPackages() {\n%s}\n", filepath.Base(filepath.Dir(out)), imports, calls)
 		if err := os.WriteFile(out, []byte(src), 0o644); err != nil {
@@ -187,7 +253,14 @@ var (
 	ScanNote        = %q
 	ScanVarNames    = []string{%s}
 )
-`, imports, calls, len(i2off) == 0, usesSync, strings.Join(unsupported, "; "), note, names)
+
+// ExtraSources are the other exported functions of package uu that hand out IDs.
+var ExtraSources = []func(n int) []uu.ID{
+%s}
+
+// ExtraSourceNames names them.
+var ExtraSourceNames = []string{%s}
+`, imports, calls, len(i2off) == 0, usesSync, strings.Join(unsupported, "; "), note, names, sources, srcNames)
 	if err := os.WriteFile(out, []byte(src), 0o644); err != nil {
 		die(err)
 	}
